@@ -417,6 +417,11 @@ def renderLines (rows : Rows) : List (List Char) :=
 /-- `NeighborList.dump`: every line followed by `'\n'`. -/
 def render (rows : Rows) : List Char := (renderLines rows).flatMap (fun l => l ++ ['\n'])
 
+/-- `NeighborList.dump` as it stands in the source (header writes, index format, neighbor format and end of line
+    regenerated from `NeighborList.py` on every run); `dump_as_modelled` (Proofs) shows it is `render`. -/
+def renderGen (rows : Rows) : List Char :=
+  Gen.dumpHeader ++ (rows.mapIdx fun i row => Gen.dumpIdx i ++ row.flatMap Gen.dumpNbr ++ Gen.dumpEol).flatten
+
 /-- `int(term)` restricted to plain digit strings. -/
 def parseNat? (t : List Char) : Option Nat :=
   if t ≠ [] ∧ t.all Char.isDigit then some (Nat.ofDigitChars 10 t 0) else none
